@@ -3,7 +3,7 @@ from vx.unit import Unit
 from .common import runtime_options_item, results_items
 from vx.extract import C
 
-PROPS = ['C03', 'C02', 'C10', 'C01']
+PROPS = ['C03', 'C02', 'C10', 'C16', 'C01']
 HEADER = '#![feature(allocator_api)]\nuse vstd::prelude::*;\nuse vstd::std_specs::convert::*;\nuse vstd::std_specs::iter::IteratorSpec;\nuse std::collections::VecDeque;\nverus! {\n'
 FOOTER = '\n} // verus!\nfn main() {}\n'
 
@@ -11,7 +11,7 @@ T = 'new_stages(old(shell).stages(), shell.stages())'
 
 
 def build(repo, findings):
-    u = Unit('U4l', 'pipeline stage launch: errexit flag threading, pipe wiring, process groups', repo, ['C03', 'C02', 'C10'], safety_props=['C01', 'C03'])
+    u = Unit('U4l', 'pipeline stage launch: errexit flag threading, pipe wiring, process groups', repo, ['C03', 'C02', 'C10', 'C16'], safety_props=['C01', 'C03'])
     interp = u.source('brush-core/src/interp.rs')
     cm = u.source('brush-core/src/commands.rs')
     ast = u.source('brush-parser/src/ast.rs')
@@ -51,7 +51,7 @@ def build(repo, findings):
         C('aux log-extends', 'old(shell).stages().is_prefix_of(final(shell).stages())'),
         C('C03,C02,C10 every-stage-launched-as-specified', '''res is Ok ==> stages_ok(new_stages(old(shell).stages(), final(shell).stages()), pipeline.seq@.len() as int, *pipeline, *params, old(shell).opts())
     && res->Ok_0@.len() == pipeline.seq@.len()'''),
-        C('C02 a-stage-in-its-own-subshell-cannot-steer-the-parent', '''res is Ok ==> forall|k: int| 0 <= k < res->Ok_0@.len() ==>
+        C('C02,C16 a-stage-in-its-own-subshell-cannot-steer-the-parent-one-run-in-this-shell-is-handed-on-untouched', '''res is Ok ==> forall|k: int| 0 <= k < res->Ok_0@.len() ==>
     result_confined(new_stages(old(shell).stages(), final(shell).stages())[k], #[trigger] res->Ok_0@[k])'''),
         C('C02,C03 only-an-error-of-a-stage-run-in-this-shell-ends-the-launch-one-in-a-subshell-of-its-own-fails-that-stage', '''res is Err ==> ({
     let t = new_stages(old(shell).stages(), final(shell).stages());
@@ -90,7 +90,7 @@ proof {
         C('aux', 'pipe_writers@ == ws0.take(if ws0.len() >= __n { ws0.len() - __n } else { 0 })'),
         C('aux', '__n < pipeline_len ==> shell.opts() == opts0'),
         C('aux', 'spawn_results@.len() == __n'),
-        C('C02 stages-so-far-confined', 'forall|k: int| 0 <= k < __n ==> result_confined(%s[k], #[trigger] spawn_results@[k])' % T.replace('old(shell).stages()', 'st0')),
+        C('C02,C16 stages-so-far-confined', 'forall|k: int| 0 <= k < __n ==> result_confined(%s[k], #[trigger] spawn_results@[k])' % T.replace('old(shell).stages()', 'st0')),
         C('C03,C02,C10 stages-so-far-as-specified', 'stages_ok(%s, __n as int, *pipeline, *params, opts0)' % T.replace('old(shell).stages()', 'st0')),
         C('C10 previous-stage-writes-the-pipe-this-stage-reads', '(0 < __n < pipeline_len) ==> %s[__n - 1].stdout == ws0[pipeline_len - 1 - __n]' % T.replace('old(shell).stages()', 'st0')),
     ], body_first='''proof { assert(*command == pipeline.seq@[it.index@ as int]); }
